@@ -261,7 +261,7 @@ class OPA(BaseModelSingleSet):
         norms = xr.apply_ufunc(
             np.linalg.norm,
             P,
-            input_core_dims=[["sample"]],
+            input_core_dims=[[sample_name]],
             vectorize=False,
             dask="allowed",
             kwargs={"axis": -1},
